@@ -397,11 +397,12 @@ def debye(run, repo, I, store):
             extra = ''
             if not good and isinstance(got, Rat):
                 extra = ' (ratio got/expected = %s)' % show(got / want)
-            run.fn('%s.%s' % (iowner.qual if hasattr(iowner, 'qual') else ci.qual, fref.fn.name))
+            fname = getattr(fref.fn, 'name', '<lambda>')
+            run.fn('%s.%s' % (iowner.qual if hasattr(iowner, 'qual') else ci.qual, fname))
             run.check(good, 'REF.debye integrand', 'DebyeVib %s-integrand' % r, 'textbook',
                       'the integrand of the %s-integral (%s, reached from get_%s) is %s at x, expected %s%s'
-                      % (r, fref.fn.name, q, show(got), txt, extra), fref.module, fref.fn,
-                      sample={'class': 'DebyeVib', 'integrand': fref.fn.name, 'role': r, 'textbook': txt},
+                      % (r, fname, q, show(got), txt, extra), fref.module, fref.fn,
+                      sample={'class': 'DebyeVib', 'integrand': fname, 'role': r, 'textbook': txt},
                       sig=lambda: 'got/expected = %s' % show(got / want, 200) if isinstance(got, Rat) else 'no integrand')
     if len(ints) != 3:
         return
@@ -540,18 +541,19 @@ def aggregation(run, repo):
             modes[a] = opaque_obj(I, a, {m: tuple(mode_params) for m in methods + ['get_ZPE']},
                                   rewrite={'get_GoRT': twin_rewrite('get_HoRT', 'get_SoR'),
                                            'get_FoRT': twin_rewrite('get_UoRT', 'get_SoR')})
-        attrs = dict(modes)
-        attrs['name'] = 'sp'
-        attrs['elements'] = DictV({'A': D.sym('nA')})
-        attrs['groups'] = DictV({'G1': D.sym('nG1'), 'G2': D.sym('nG2')})       # a user-defined descriptor
+        # the species is made as a user makes it - StatMech(name=..., trans_model=..., ..., elements=..., references=...,
+        # misc_models=[...]) - and given one more composition-like attribute of the user's own (``groups``)
+        kw = dict(modes)
+        kw['name'] = 'sp'
+        parts = {'elements': DictV({'H': D.sym('nH'), 'O': D.sym('nO')}),
+                 'groups': DictV({'G1': D.sym('nG1'), 'G2': D.sym('nG2')}), 'references': None, 'misc_models': None}
+        kw['elements'] = parts['elements']
         if references:
             refs = opaque_obj(I, 'refs', {m: ('descriptors', 'T') for m in methods},
                               rewrite={'get_GoRT': twin_rewrite('get_HoRT', 'get_SoR'),
                                        'get_FoRT': twin_rewrite('get_UoRT', 'get_SoR')})
             refs.attrs['descriptor'] = references if isinstance(references, str) else 'elements'
-            attrs['references'] = refs
-        else:
-            attrs['references'] = None
+            kw['references'] = parts['references'] = refs
         if misc:
             # one attached model, or several (the normal use: one coverage effect per neighbouring species), each
             # with values of its own
@@ -562,11 +564,13 @@ def aggregation(run, repo):
                                          'get_FoRT': twin_rewrite('get_UoRT', 'get_SoR')})
                 mm.attrs['name_j'] = 'other' if j == 0 else 'other%d' % (j + 1)
                 mms.append(mm)
-            attrs['misc_models'] = ListV(mms)
-        else:
-            attrs['misc_models'] = None
-        sp = Obj('sp', ci, attrs=attrs)
-        sp.opaque_methods['get_Selements'] = lambda I_, o, a, k: I_.D.sym('sp.Selements')
+            parts['misc_models'] = mms
+            kw['misc_models'] = ListV(list(mms))
+        sp = I.construct(ci, [], kw, name='sp')
+        if isinstance(sp, Raised):
+            raise Unsupported('StatMech(...) raises %s for a species of uninterpreted modes' % sp.exc)
+        set_public(I, sp, 'groups', parts['groups'])
+        sp.parts = parts
         return sp, modes
 
     for mname in methods:
@@ -590,12 +594,12 @@ def aggregation(run, repo):
                 if references:
                     # the references are described by the attribute THEY name (elements by default, any other
                     # composition-like dictionary of the species otherwise)
-                    exp.append(val(I, sp.attrs['references'], mname,
-                                   {'descriptors': sp.attrs[references], 'T': T}))
+                    exp.append(val(I, sp.parts['references'], mname,
+                                   {'descriptors': sp.parts[references], 'T': T}))
                 else:
                     exp.append(ident)
                 if misc:
-                    exp.extend(val(I, mm_, mname, kw) for mm_ in sp.attrs['misc_models'].items)
+                    exp.extend(val(I, mm_, mname, kw) for mm_ in sp.parts['misc_models'])
                 else:
                     exp.append(ident)
                 ok = isinstance(verbose, ListV) and len(verbose) == len(exp) and \
@@ -647,9 +651,9 @@ def aggregation(run, repo):
                         if zpe is not None:
                             kw['include_ZPE'] = zpe
                         exp = [val(I, modes[a], mname, kw) for a in MODE_ATTRS]
-                        exp.append(val(I, sp.attrs['references'], mname,
-                                       {'descriptors': sp.attrs['elements'], 'T': T}) if use_refs else ident)
-                        exp.extend(val(I, mm_, mname, kw) for mm_ in sp.attrs['misc_models'].items)
+                        exp.append(val(I, sp.parts['references'], mname,
+                                       {'descriptors': sp.parts['elements'], 'T': T}) if use_refs else ident)
+                        exp.extend(val(I, mm_, mname, kw) for mm_ in sp.parts['misc_models'])
                         agg = ident
                         for e in exp:
                             agg = I.binop('*' if op == 'prod' else '+', agg, e)
@@ -799,6 +803,12 @@ def aggregation(run, repo):
 # ----------------------------------------------------------------------
 # imaginary-frequency filter + cached fields, through the real constructors
 
+def filter_anchor(repo, ci):
+    """where a finding about the wavenumbers a model counts is reported: the setter of the public property when the
+    class has one, else its constructor"""
+    return repo.find_method(ci, 'vib_wavenumbers.setter', missing_ok=True) or repo.find_method(ci, '__init__')
+
+
 def imaginary_counts(run, repo):
     """The number and the place of the imaginary entries vary: every imaginary entry is dropped (no substitute) or
     every one of them is replaced by the substitute - also when the substitute is already among the modes that count
@@ -811,7 +821,7 @@ def imaginary_counts(run, repo):
     ranks = {'w_real': 5, 'w_imag': -5, 'w_imag2': -7, 'w_sub': 3, 'w_low': 1, 'w_low2': 2}
     for cname in ('HarmonicVib', 'QRRHOVib'):
         ci = repo.cls(SM + '.vib.' + cname)
-        owner, fn = repo.find_method(ci, 'vib_wavenumbers.setter')
+        owner, fn = filter_anchor(repo, ci)
         for vname, vec, with_sub, without in (
                 ('[imaginary, real, imaginary]', ('w_imag', 'w_real', 'w_imag2'), ('w_sub', 'w_real', 'w_sub'),
                  ('w_real',)),
@@ -823,16 +833,25 @@ def imaginary_counts(run, repo):
                  ('w_low', 'w_sub', 'w_real'), ('w_low', 'w_real')),
                 ('[real, real below the substitute, real below the substitute]', ('w_real', 'w_low2', 'w_low'),
                  ('w_real', 'w_low2', 'w_low'), ('w_real', 'w_low2', 'w_low'))):
-            for sub_given in (True, False):
+            for sub_given, form in [(True, 'list'), (False, 'list')] + (
+                    [(True, 'array'), (False, 'array')] if run.tier == 'thorough' else []):
                 I = Interp(repo, order=RankOrder(dict(ranks), const_ranks=True))
                 D = I.D
                 T = D.sym('T')
                 sub_v = D.sym('w_sub') if sub_given else None
                 valid = [D.sym(k) for k in (with_sub if sub_given else without)]
-                key = '%s substitute=%s' % (vname, 'given' if sub_given else 'None')
-                o = Obj('self', ci, closed=True)
-                r = I.call_method(o, '__init__', [], {'vib_wavenumbers': ListV([D.sym(k) for k in vec]),
-                                                      'imaginary_substitute': sub_v})
+                key = '%s substitute=%s%s' % (vname, 'given' if sub_given else 'None',
+                                               '' if form == 'list' else ' (numpy array)')
+                # the wavenumbers as the user hands them over: a list (or an array) whose numbers may well be whole
+                # numbers - [3825, 3710, 1582, -200] - while the substitute is any real number (12.5): an array that
+                # takes its element type from this container truncates what is stored into it
+                given = ListV([D.sym(k) for k in vec])
+                given.dtype = 'caller'
+                if form == 'array':
+                    given.is_array = True
+                n_hz = len(I.dtype_hazards)
+                o = I.construct(ci, [], {'vib_wavenumbers': given, 'imaginary_substitute': sub_v}, name='self')
+                r = o
                 quantities = [('ZPE', {}), ('UoRT', {'T': T}), ('SoR', {'T': T}), ('CvoR', {'T': T})]
                 if cname == 'HarmonicVib':
                     quantities.append(('q', {'T': T}))
@@ -840,15 +859,23 @@ def imaginary_counts(run, repo):
                     run.fail('ORDER.filter', cname + '.vib_wavenumbers', key,
                              'constructing the model from %s wavenumbers raises %s' % (vname, r.exc),
                              owner.module, fn)
-                    n += len(quantities)
+                    n += len(quantities) + 1
                     continue
+                hz = I.dtype_hazards[n_hz:]
+                hm = [m_ for m_ in repo.modules.values() if hz and m_.relpath == hz[0][1]]
+                run.check(not hz, 'TYPE.int-buffer', cname + '.vib_wavenumbers', key,
+                          'while the model is built a value that is not a whole number (the substitute, a converted '
+                          'wavenumber) is stored into an array that has the element type of the container of '
+                          'wavenumbers the user supplied: for wavenumbers typed as whole numbers ([3825, 3710, 1582, '
+                          '-200]) the stored value is truncated (a substitute of 12.5 1/cm counts as 12 1/cm)',
+                          hm[0] if hm else owner.module, hz[0][0] if hz else fn)
+                n += 1
+                ones = [I.construct(ci, [], {'vib_wavenumbers': ListV([wv]), 'imaginary_substitute': None},
+                                    name='one') for wv in valid]
                 for q, kw in quantities:
                     got = I.call_method(o, 'get_' + q, [], dict(kw))
                     want = C(1) if q == 'q' else C(0)
-                    for wv in valid:
-                        one = Obj('one', ci, closed=True)
-                        I.call_method(one, '__init__', [], {'vib_wavenumbers': ListV([wv]),
-                                                            'imaginary_substitute': None})
+                    for one in ones:
                         want = I.binop('*' if q == 'q' else '+', want, I.call_method(one, 'get_' + q, [], dict(kw)))
                     o2, f2 = repo.find_method(ci, 'get_' + q)
                     run.check(same(got, want), 'ORDER.filter', cname + '.vib_wavenumbers', key + ' ' + q,
@@ -874,12 +901,13 @@ def cached_fields(run, repo):
             D = I.D
             T = D.sym('T')
             wr, wi, wr2, ws, w3 = (D.sym(k) for k in ('w_real', 'w_imag', 'w_real2', 'w_sub', 'w3'))
-            o = Obj('self', ci, closed=True)
             sub_v = ws if sub_given else None
-            r = I.call_method(o, '__init__', [], {'vib_wavenumbers': ListV([wr, wi, wr2]),
-                                                  'imaginary_substitute': sub_v})
+            given = ListV([wr, wi, wr2])
+            given.dtype = 'caller'          # the user's container may hold whole numbers
+            n_hz = len(I.dtype_hazards)
+            o = r = I.construct(ci, [], {'vib_wavenumbers': given, 'imaginary_substitute': sub_v}, name='self')
             valid = [wr, ws, wr2] if sub_given else [wr, wr2]
-            owner, fn = repo.find_method(ci, 'vib_wavenumbers.setter')
+            owner, fn = filter_anchor(repo, ci)
             key = 'substitute=%s' % ('given' if sub_given else 'None')
             if isinstance(r, Raised):
                 run.fail('ORDER.filter', cname + '.vib_wavenumbers', key,
@@ -887,12 +915,18 @@ def cached_fields(run, repo):
                          owner.module, fn)
                 n += 8      # the dependent instances below are not evaluated for this variant
                 continue
-            run.fn(owner.qual + '.vib_wavenumbers.setter')
+            hz = I.dtype_hazards[n_hz:]
+            hm = [m_ for m_ in repo.modules.values() if hz and m_.relpath == hz[0][1]]
+            run.check(not hz, 'TYPE.int-buffer', cname + '.vib_wavenumbers', '[real, imaginary, real] ' + key,
+                      'while the model is built a value that is not a whole number is stored into an array that has '
+                      'the element type of the container of wavenumbers the user supplied: for wavenumbers typed as '
+                      'whole numbers the stored value is truncated', hm[0] if hm else owner.module,
+                      hz[0][0] if hz else fn)
+            n += 1
             # observed through a public getter (the zero-point energy is a sum over the modes that count): the
             # real wavenumbers are kept as they are and the imaginary one is dropped or replaced
             def one_mode(wv, q, kw):
-                one = Obj('one', ci, closed=True)
-                I.call_method(one, '__init__', [], {'vib_wavenumbers': ListV([wv]), 'imaginary_substitute': None})
+                one = I.construct(ci, [], {'vib_wavenumbers': ListV([wv]), 'imaginary_substitute': None}, name='one')
                 return I.call_method(one, 'get_' + q, [], kw)
             got = I.call_method(o, 'get_ZPE', [], {})
             want = C(0)
@@ -912,18 +946,14 @@ def cached_fields(run, repo):
                 o2, f2 = repo.find_method(ci, 'get_' + q)
                 want = C(0)
                 for wv in valid:
-                    one = Obj('one', ci, closed=True)
-                    I.call_method(one, '__init__', [], {'vib_wavenumbers': ListV([wv]),
-                                                        'imaginary_substitute': None})
-                    want = I.binop('+', want, I.call_method(one, 'get_' + q, [], {'T': T}))
+                    want = I.binop('+', want, one_mode(wv, q, {'T': T}))
                 run.check(same(got, want), 'PATH.cache', '%s.get_%s' % (cname, q), key,
                           'value of the constructed object is not the sum of the per-mode values over the valid '
                           'wavenumbers (stale or missing cached field?)', o2.module, f2)
                 n += 1
             # re-assigning the wavenumbers refreshes every cached field a getter reads
-            I.call_method(o, 'vib_wavenumbers.setter', [ListV([w3])], {})
-            fresh = Obj('fresh', ci, closed=True)
-            I.call_method(fresh, '__init__', [], {'vib_wavenumbers': ListV([w3]), 'imaginary_substitute': sub_v})
+            set_public(I, o, 'vib_wavenumbers', ListV([w3]))        # o.vib_wavenumbers = [w3]
+            fresh = I.construct(ci, [], {'vib_wavenumbers': ListV([w3]), 'imaginary_substitute': sub_v}, name='fresh')
             for q in ('UoRT', 'SoR', 'CvoR') + (('ZPE',) if True else ()):
                 a = I.call_method(o, 'get_' + q, [], {'T': T} if q != 'ZPE' else {})
                 b = I.call_method(fresh, 'get_' + q, [], {'T': T} if q != 'ZPE' else {})
@@ -1399,16 +1429,39 @@ def check(run, repo):
         'documented point-group label is resolved through RigidRotor.__init__. Vectors with several imaginary entries '
         '(and a real entry equal to the substitute), species with two attached models, an option of the modes '
         '(include_ZPE) handed to every species getter, and rotational temperatures taken from a structure (textbook '
-        'function of the principal moments the structure reports, of nothing else it says) are instances of their own.')
+        'function of the principal moments the structure reports, of nothing else it says) are instances of their own. '
+        'Round 2 of the white-box review: every mode object is built by its own constructor from symbolic documented '
+        'parameters (nothing is read from or written to private names); real wavenumbers below the substitute; the '
+        'wavenumbers come in a container whose numbers may be whole numbers (a store of a real value into an array of '
+        'that element type is TYPE.int-buffer); the options of get_quantity crossed (verbose x use_references, all of '
+        'them in the thorough tier); a second object of every closed-form class, a second T, P and the first object '
+        'again in the same interpreter must report what a fresh interpreter reports (EFFECT.state: memo tables, '
+        'class-level containers); molar mass and composition taken from a structure for molecules of the G2 set with '
+        'the atoms listed in the bundled and in permuted orders against the folded atomic-weight table.')
     run.assumptions = ['identities over the reals; pmutt.constants modelled as R=kb*Na, kb[u]=kb*U[u], h[u]=h*U[u], '
                        'convert_unit=U[final]/U[initial] (verified on the literal tables by C12)',
                        '_force_pass_arguments/_pass_expected_arguments modelled by their documented contract']
     run.undecided = ['invariance of geometry-derived parameters under rigid motions / atom permutations: what ASE '
                      'itself computes (principal moments, angles, chemical formula; numeric tolerances) - decided is '
                      'that the rotational temperatures are the textbook function of the principal moments and of '
-                     'nothing else the structure says',
+                     'nothing else the structure says, and that molar mass and composition are those of the multiset '
+                     'of chemical symbols whatever order the structure lists them in',
                      'LSR / BEP energies beyond the identities (opaque calls into reaction and species objects)',
                      'raise_error/raise_warning behaviour on modes lacking a getter']
+    # instances on concrete vectors, labels and structures first, the generic (symbolic-vector) sweep after them: a
+    # change that both breaks a concrete instance and takes the generic sweep out of the interpreted fragment is
+    # reported for what it breaks
+    n = cached_fields(run, repo)
+    run.floor('cache/filter instances', n, 20)
+    symmetry_labels(run, repo)
+    n = geometry_from_atoms(run, repo)
+    run.floor('collinearity instances', n, 40)
+    n = composition_from_atoms(run, repo)
+    run.floor('structure-derived molar mass and composition', n, 60)
+    n = rot_from_atoms(run, repo)
+    run.floor('structure-derived rotational temperatures', n, 16)
+    n = aggregation(run, repo)
+    run.floor('aggregation instances', n, 60)
     I, store, n_twin, n_deriv = check_modes(run, repo)
     run.floor('TWIN instances', n_twin, 50)
     run.floor('DERIV instances', n_deriv, 80)
@@ -1419,18 +1472,6 @@ def check(run, repo):
     run.floor('IDENT instances', n, 3)
     n = hidden_state(run, repo, I, store)
     run.floor('no-hidden-state instances', n, 300)
-    n = aggregation(run, repo)
-    run.floor('aggregation instances', n, 60)
-    n = cached_fields(run, repo)
-    run.floor('cache/filter instances', n, 20)
-    symmetry_labels(run, repo)
-    n = geometry_from_atoms(run, repo)
-    run.floor('collinearity instances', n, 40)
-    n = rot_from_atoms(run, repo)
-    run.floor('structure-derived rotational temperatures', n, 16)
-    n = composition_from_atoms(run, repo)
-    run.floor('structure-derived molar mass and composition', n, 60)
-
 
 V = 'pmutt/statmech/vib.py'
 R_ = 'pmutt/statmech/rot.py'
@@ -1438,6 +1479,7 @@ TR = 'pmutt/statmech/trans.py'
 SMI = 'pmutt/statmech/__init__.py'
 EL = 'pmutt/statmech/elec.py'
 MIX = 'pmutt/mixture/__init__.py'
+PKG = 'pmutt/__init__.py'
 MUTANTS = [
     {'name': 'harmonic q with the full quantum instead of the zero-point half', 'expect': ('REF.harmonic oscillator q', 'HarmonicVib.get_q'),
      'edits': [(V, '                np.exp(-vib_dimless / 2.) / (1. - np.exp(-vib_dimless)))', '                np.exp(-vib_dimless) / (1. - np.exp(-vib_dimless)))')]},
@@ -1530,8 +1572,115 @@ MUTANTS = [
      'expect': ('', 'QRRHOVib'),
      'edits': [(V, '        CvoR = []\n        vib_dimless = self._valid_vib_temperatures / T\n',
                 '        CvoR = []\n        vib_dimless = self._valid_vib_temperatures\n        vib_dimless /= T\n')]},
+    # white-box review, round 2
+    {'name': 'real modes below the substitute are replaced by it as well',
+     'expect': ('ORDER.filter', 'vib_wavenumbers'),
+     'edits': [(V, '        if wavenumber > 0.:\n            # Real wavenumbers always added\n',
+                '        if substitute is not None and wavenumber < substitute:\n'
+                '            wavenumbers_out.append(substitute)\n'
+                '        elif wavenumber > 0.:\n            # Real wavenumbers always added\n')]},
+    {'name': 'Debye integrals memoised in a class-level dict keyed by (integrand, T)',
+     'expect': ('EFFECT.state', 'DebyeVib'),
+     'edits': [(V, '    def __init__(self, debye_temperature, interaction_energy):\n'
+                   '        self.debye_temperature = debye_temperature\n',
+                '    _intermediate_fns = {}\n\n    def __init__(self, debye_temperature, interaction_energy):\n'
+                '        self.debye_temperature = debye_temperature\n'),
+               (V, '        vib_dimless = self.debye_temperature / T\n'
+                   '        integral = quad(func=fn, a=0., b=vib_dimless)[0]\n'
+                   '        return 3. * integral / vib_dimless**3\n',
+                '        key = (fn.__name__, T)\n        try:\n            return self._intermediate_fns[key]\n'
+                '        except KeyError:\n            pass\n'
+                '        vib_dimless = self.debye_temperature / T\n'
+                '        integral = quad(func=fn, a=0., b=vib_dimless)[0]\n'
+                '        self._intermediate_fns[key] = 3. * integral / vib_dimless**3\n'
+                '        return self._intermediate_fns[key]\n')]},
+    {'name': 'verbose breakdown lists the references although they are switched off',
+     'expect': ('AGG.verbose', 'StatMech'),
+     'edits': [(SMI, '        if use_references and self.references is not None:',
+                '        if (use_references or verbose) and self.references is not None:')]},
+    {'name': 'molar mass of a structure from itertools.groupby over the symbols as listed',
+     'expect': ('REF.molar-mass', 'FreeTrans'),
+     'edits': [(TR, 'import numpy as np\n', 'import itertools\n\nimport numpy as np\n'),
+               (TR, "            self.molecular_weight = get_molecular_weight(\n"
+                    "                atoms.get_chemical_formula(mode='hill'))\n",
+                "            self.molecular_weight = get_molecular_weight({\n"
+                "                element: len(list(same_element)) for element, same_element in\n"
+                "                itertools.groupby(atoms.get_chemical_symbols())})\n")]},
+    {'name': 'composition of a structure from the run-length formula, a later run overwrites the count',
+     'expect': ('REF.composition', 'StatMech'),
+     'edits': [(SMI, "kwargs['atoms'].get_chemical_formula('hill'))", "kwargs['atoms'].get_chemical_formula('reduce'))"),
+               (PKG, "        elements[element] = elements.get(element, 0) + int(coefficient or '1')\n",
+                "        elements[element] = int(coefficient or '1')\n")]},
+    # (the reviewer's vectorised filter - ``out[~real] = substitute`` on np.array(wavenumbers) - needs boolean-mask
+    # stores in the interpreter, see REQ2_C01; this is the same defect written with an indexed store)
+    {'name': 'substitute written into a copy of the caller\'s (possibly integer) array',
+     'expect': ('TYPE.int-buffer', 'vib_wavenumbers'),
+     'edits': [(V, '''    wavenumbers_out = []
+    for wavenumber in wavenumbers:
+        if wavenumber > 0.:
+            # Real wavenumbers always added
+            wavenumbers_out.append(wavenumber)
+        elif substitute is not None:
+            # Substitute added if imaginary frequency encountered
+            wavenumbers_out.append(substitute)
+    return np.array(wavenumbers_out)
+''', '''    wavenumbers_out = np.array(wavenumbers)
+    if substitute is not None:
+        for i, wavenumber in enumerate(wavenumbers):
+            if not wavenumber > 0.:
+                wavenumbers_out[i] = substitute
+    return wavenumbers_out[wavenumbers_out > 0.]
+''')]},
+    {'name': 'species F ignores S_elements', 'expect': ('TWIN.F=U-S', 'StatMech.get_FoRT'),
+     'edits': [(SMI, '''        if not S_elements:
+            S_ele = 0
+        else:
+            S_ele = self.get_Selements()
+
+        return self.get_quantity(method_name='get_FoRT',''', '''        S_ele = 0
+
+        return self.get_quantity(method_name='get_FoRT',''')]},
 ]
+_UNIT_MASS = "        unit_mass = self.molecular_weight *\\\n            c.convert_unit(initial='g', final='kg')/c.Na\n"
 EQUIV = [
+    # white-box review, round 2: refactorings that were reported by mistake
+    {'name': 'molecular_weight as a property that also keeps the mass of one molecule',
+     'edits': [(TR, "        else:\n            self.molecular_weight = molecular_weight\n",
+                "        else:\n            self.molecular_weight = molecular_weight\n\n"
+                "    @property\n    def molecular_weight(self):\n        return self._molecular_weight\n\n"
+                "    @molecular_weight.setter\n    def molecular_weight(self, val):\n"
+                "        self._molecular_weight = val\n"
+                "        if val is None:\n            self._unit_mass = None\n        else:\n"
+                "            self._unit_mass = val *\\\n                c.convert_unit(initial='g', final='kg')/c.Na\n"),
+               (TR, _UNIT_MASS, "        unit_mass = self._unit_mass\n", 0, 2),
+               (TR, _UNIT_MASS, "        unit_mass = self._unit_mass\n")]},
+    {'name': 'HarmonicVib.get_CpoR bound by assignment in the class body',
+     'edits': [(V, '    def get_CpoR(self, T):\n'
+                   '        """Calculates the dimensionless heat capacity at constant pressure\n\n'
+                   '        :math:`\\\\frac{C_P^{vib}}{R}=\\\\frac{C_V^{vib}}{R}=\\\\sum_i',
+                '    get_CpoR = get_CvoR\n\n    def _get_CpoR_doc(self, T):\n'
+                '        """Calculates the dimensionless heat capacity at constant pressure\n\n'
+                '        :math:`\\\\frac{C_P^{vib}}{R}=\\\\frac{C_V^{vib}}{R}=\\\\sum_i')]},
+    {'name': 'Debye integrals memoised per (integrand, theta_D/T) in a class-level dict',
+     'edits': [(V, '    def __init__(self, debye_temperature, interaction_energy):\n'
+                   '        self.debye_temperature = debye_temperature\n',
+                '    _intermediate_fns = {}\n\n    def __init__(self, debye_temperature, interaction_energy):\n'
+                '        self.debye_temperature = debye_temperature\n'),
+               (V, '        vib_dimless = self.debye_temperature / T\n'
+                   '        integral = quad(func=fn, a=0., b=vib_dimless)[0]\n'
+                   '        return 3. * integral / vib_dimless**3\n',
+                '        vib_dimless = self.debye_temperature / T\n        key = (fn.__name__, vib_dimless)\n'
+                '        try:\n            return self._intermediate_fns[key]\n'
+                '        except KeyError:\n            pass\n'
+                '        integral = quad(func=fn, a=0., b=vib_dimless)[0]\n'
+                '        self._intermediate_fns[key] = 3. * integral / vib_dimless**3\n'
+                '        return self._intermediate_fns[key]\n')]},
+    {'name': 'spin a plain attribute, degeneracy computed where it is used',
+     'edits': [(EL, '    @property\n    def spin(self):\n        return self._spin\n\n    @spin.setter\n'
+                    '    def spin(self, val):\n        self._spin = val\n        self._degeneracy = 2. * val + 1.\n\n', ''),
+               (EL, 'return self._degeneracy * (1 + np.exp(-Epsilon))',
+                'return (2. * self.spin + 1.) * (1 + np.exp(-Epsilon))'),
+               (EL, 'return np.log(self._degeneracy)', 'return np.log(2. * self.spin + 1.)')]},
     {'name': 'harmonic Cv in exp form',
      'edits': [(V, '(0.5 * vib_dimless)**2 * (1. / np.sinh(vib_dimless / 2.))**2',
                 'vib_dimless**2 * np.exp(-vib_dimless) / (1. - np.exp(-vib_dimless))**2')]},
